@@ -7,6 +7,7 @@ Tables printed (all fail-closed on an unexpected shape):
   eval_bin_fns / eval_cmp_fns         the two local dispatch dicts of _eval_const
                                       ({ast.Add: op.add, ...} inside _apply_bin, {ast.Eq: op.eq, ...} inside ev)
                                       as (ast class name, operator function name) lists, read from the source text
+  fold_max_bits         _MAX_CONST_BITS (the one test `bits > _MAX_CONST_BITS` of _apply_bin must have that shape)
 """
 import ast
 import builtins
@@ -76,5 +77,21 @@ def generate(api):
         api.die("_eval_const: could not tell the binary-operator dict from the comparison dict")
     fmt = lambda rows: api.clist(["(" + api.ctext(a) + ", " + api.ctext(b) + ") (* ast." + a + " -> op." + b + " *)" for a, b in rows])
     out.append("Definition eval_bin_fns : list (text * text) := " + fmt(bin_rows) + ".\n\n")
-    out.append("Definition eval_cmp_fns : list (text * text) := " + fmt(cmp_rows) + ".\n")
+    out.append("Definition eval_cmp_fns : list (text * text) := " + fmt(cmp_rows) + ".\n\n")
+
+    # the size bound on folded integers: the module constant and the one test `<name> > _MAX_CONST_BITS` of _apply_bin
+    mb = getattr(P, "_MAX_CONST_BITS", None)
+    if isinstance(mb, bool) or not isinstance(mb, int):
+        api.die("_MAX_CONST_BITS is missing or not an int: _eval_const folds integers of unbounded size")
+    if not (1 <= mb <= 1 << 20):
+        api.die(f"_MAX_CONST_BITS = {mb}: not a size bound (expected 1 .. 2^20)")
+    tests = [n for n in ast.walk(tree) if isinstance(n, ast.Compare) and any(
+        isinstance(x, ast.Name) and x.id == "_MAX_CONST_BITS" for x in [n.left] + n.comparators)]
+    if len(tests) != 1:
+        api.die(f"_eval_const: expected exactly one comparison with _MAX_CONST_BITS, found {len(tests)}")
+    t = tests[0]
+    if not (len(t.ops) == 1 and isinstance(t.ops[0], ast.Gt) and isinstance(t.left, ast.Name)
+            and isinstance(t.comparators[0], ast.Name) and t.comparators[0].id == "_MAX_CONST_BITS"):
+        api.die("_eval_const: the size test is not of the form `<name> > _MAX_CONST_BITS`")
+    out.append("Definition fold_max_bits : Z := " + str(mb) + ".\n")
     api.write_if_changed(api.GEN / "SafeCasts.v", "".join(out))
